@@ -63,6 +63,9 @@ package fsstore
 //@   nosafety
 //@   requires store != nil && ctx != nil
 //@   before wrCommitter assert[C18] carg0 == "" || (err == nil && carg0 == key)
+//   a failed write is reported: Put succeeds only if the whole content was written and committed
+//@   after Write let werr = result1
+//@   ensures[C17] defined(werr) && werr != nil ==> err != nil
 
 //@ func (*Store).PutStream$1(key) (err)
 //@   requires f != nil && f.path == stagepath && stagepath.owned && os.instaging(stagepath)
